@@ -11,7 +11,7 @@ import itertools
 
 from .. import anchors as A
 from ..dectree import decide, Cascade
-from ..model import AnalysisError, ClassInfo, FuncInfo, Project, walk_local, call_name, kwarg
+from ..model import local_values, AnalysisError, ClassInfo, FuncInfo, Project, walk_local, call_name, kwarg
 from ..paths import PState, run_paths, subst_text, norm_lit, subst
 from ..report import Report
 
@@ -32,10 +32,19 @@ def _store_attr(P: Project, ci: ClassInfo) -> str:
             attrs.append(tgt.attr)
     if len(attrs) != 1:
         raise AnalysisError(f"anchor: expected exactly one dict store attribute in {ci.name}.__init__, found {attrs}")
-    others = [s for s in walk_local(init.node) if isinstance(s, (ast.Assign, ast.AnnAssign, ast.AugAssign))]
-    if len(others) != 1:
-        raise AnalysisError(f"{ci.name}.__init__ now keeps more state than the store ({len(others)} assignments); the map model no longer applies")
     return attrs[0]
+
+
+def extra_state(ci, init, store: str):
+    """Attributes the constructor sets besides the store (caches, counters): the map rules below read every method
+    against the store alone, so each rule that meets one of these in a result or a test must answer for it."""
+    out = []
+    for s in walk_local(init.node):
+        tg = s.targets if isinstance(s, ast.Assign) else ([s.target] if isinstance(s, (ast.AnnAssign, ast.AugAssign)) else [])
+        for t in tg:
+            if isinstance(t, ast.Attribute) and isinstance(t.value, ast.Name) and t.value.id == "self" and t.attr != store:
+                out.append(t.attr)
+    return sorted(set(out))
 
 
 def check(P: Project, R: Report) -> None:
@@ -393,8 +402,19 @@ def check(P: Project, R: Report) -> None:
                 R.ob("R5", f"{name} does not return the store itself", not leaks, f"{f.module.rel}:{n.lineno}", f"`{ast.unparse(n)}` hands out the live dict")
     ls = need_m("list_sessions")
     rets = [n for n in walk_local(ls.node) if isinstance(n, ast.Return)]
-    ok = len(rets) == 1 and rets[0].value is not None and ast.unparse(rets[0].value) in (f"{S}.copy()", f"dict({S})", "{**" + S + "}")
-    R.ob("R5", "list_sessions returns a copy", ok, ls.where, f"returns `{ast.unparse(rets[0].value) if rets and rets[0].value is not None else None}`")
+    R.need(rets, "anchor: list_sessions has no return")
+    lv_ls = local_values(ls.node)
+    copies = (f"{S}.copy()", f"dict({S})", "{**" + S + "}", f"dict({S}.items())", "{k: v for k, v in " + S + ".items()}")
+    for r_ in rets:
+        v_ = r_.value
+        if isinstance(v_, ast.Name) and len(lv_ls.get(v_.id) or []) == 1 and lv_ls[v_.id][0] is not None:
+            v_ = lv_ls[v_.id][0]
+        txt = ast.unparse(v_) if v_ is not None else "None"
+        fresh_of_store = txt in copies or (isinstance(v_, ast.DictComp) and len(v_.generators) == 1 and not v_.generators[0].ifs and ast.unparse(v_.generators[0].iter) == f"{S}.items()" and isinstance(v_.generators[0].target, ast.Tuple) and [ast.unparse(e) for e in v_.generators[0].target.elts] == [ast.unparse(v_.key), ast.unparse(v_.value)])
+        fresh_other = isinstance(v_, (ast.DictComp, ast.Dict)) or (isinstance(v_, ast.Call) and (call_name(v_) in ("dict", "copy.copy", "copy.deepcopy") or call_name(v_).endswith(".copy")))
+        if not fresh_of_store and fresh_other:
+            raise AnalysisError(f"{ls.module.rel}:{r_.lineno}: list_sessions returns `{txt[:60]}`, a fresh mapping built from something other than the store: whether it equals the store is not decided by these rules")
+        R.ob("R5", "list_sessions returns a copy", fresh_of_store, f"{ls.module.rel}:{r_.lineno}", f"returns `{txt}`: not a mapping made for this call from the store — what the caller adds to or removes from it stays visible to the manager or to later callers")
     # clear/count
     if "clear_all_sessions" in meths:
         an, out = effects(meths["clear_all_sessions"])
